@@ -9,10 +9,10 @@ import (
 
 func init() {
 	register(&propDef{
-		ID:    "C04",
-		Level: "other",
+		ID:      "C04",
+		Level:   "other",
 		Explain: "Necessary structural conditions of weighted distribution, decided on all paths: (R1) every function that changes Route.Targets or Target.FixedWeight rebuilds the weighted ring (weighTargets) on every path to its return — the only accepted skip is the count-guarded one (the mutating closure returns the number of targets it changed and the rebuild is skipped only on the 'changed == 0' edge); (R2) every registered picker returns an element of the ring Route.wTargets, never of Route.Targets; (R3) the round-robin index derives from the result of the atomic read-modify-write on the cursor; (R4) in the ring builder a target with weight > 0 receives at least one slot (the slot count fed into the ring is max(n,1) under weight > 0) and targets with a slot count <= 0 are skipped; (R5) ring arithmetic cannot panic: divisions/moduli are dominated by non-zero tests, the ring allocation by usedSlots > 0, weights are finite when they leave the parser. (R6) a weight computed by subtraction is clamped at zero. Not decided: that the effective weights sum to one, the per-cycle share within 1/10000 and proportional scaling (floating-point arithmetic over all weight vectors).",
-		Run:   runC04,
+		Run:     runC04,
 		Trusted: []string{"sort.Sort does not change the multiset of slots", "sync/atomic.AddUint64 returns the new value atomically"},
 		Mutants: []mutant{
 			{Name: "filter forgets to rebuild the ring", File: "route/route.go", Old: "\tr.Targets = clone\n\tr.weighTargets()", New: "\tr.Targets = clone", Expect: "C04.R1"},
